@@ -26,9 +26,14 @@ mod kani_verif {
         }
     }
 
+    #[derive(Debug)]
+    struct MockErr;
+    impl fmt::Display for MockErr { fn fmt(&self, _: &mut fmt::Formatter<'_>) -> fmt::Result { Ok(()) } }
+    impl Error for MockErr {}
+    impl de::Error for MockErr { fn custom<T: fmt::Display>(_: T) -> Self { MockErr } }
     struct I64De(i64);
     impl<'de> de::Deserializer<'de> for I64De {
-        type Error = de::value::Error;
+        type Error = MockErr;
         fn deserialize_any<V: de::Visitor<'de>>(self, v: V) -> Result<V::Value, Self::Error> { v.visit_i64(self.0) }
         serde::forward_to_deserialize_any! { bool i8 i16 i32 i64 i128 u8 u16 u32 u64 u128 f32 f64 char str string bytes byte_buf option unit unit_struct newtype_struct seq tuple tuple_struct map struct enum identifier ignored_any }
     }
